@@ -98,12 +98,14 @@ class CodemodRegistry:
             # Remove duplicates and preserve order
             return list(base_codemods.values())
 
-        matched_codemods = []
+        # Keyed by id to remove duplicates (overlapping patterns) while preserving order
+        matched_codemods: dict[str, BaseCodemod] = {}
         for name in codemod_include:
             if "*" in name:
                 pat = re.compile(name.replace("*", ".*"))
                 pattern_matches = [code for code in self.codemods if pat.match(code.id)]
-                matched_codemods.extend(pattern_matches)
+                for code in pattern_matches:
+                    matched_codemods.setdefault(code.id, code)
                 if not pattern_matches:
                     logger.warning(
                         "Given codemod pattern '%s' does not match any codemods.", name
@@ -111,10 +113,10 @@ class CodemodRegistry:
                 continue
 
             try:
-                matched_codemods.append(self._codemods_by_id[name])
+                matched_codemods.setdefault(name, self._codemods_by_id[name])
             except KeyError:
                 logger.warning(f"Requested codemod to include '{name}' does not exist.")
-        return matched_codemods
+        return list(matched_codemods.values())
 
     def describe_codemods(
         self,
